@@ -48,7 +48,45 @@ def archCmp (op : Nat) (a b : Str) (re : Option Bool) : Bool :=
       | some m => m
     | _ => false
 
-def Vuln.archOK (v : Vuln) (p : Pkg) : Bool := archCmp v.archOp p.arch v.pkgArch v.re
+/-! `regexp` on the fragment the feeds actually use: a plain alternation of
+literals such as `aarch64|ppc64le|s390x|x86_64`.  `regexp.MatchString` is an
+unanchored search, so such a pattern matches `a` iff one of the alternatives
+occurs in `a` as a substring. -/
+
+/-- A pattern character without any regexp meaning. -/
+def isLiteralChar (c : Char) : Bool := isDigit c || isLetter c || c = '_' || c = '-'
+
+/-- `b` is a `|`-separated list of literals. -/
+def isLiteralAlt (b : Str) : Bool := b.all fun c => isLiteralChar c || c = '|'
+
+/-- `alt` is a prefix of `a`. -/
+def isPrefix : Str → Str → Bool
+  | [], _ => true
+  | _ :: _, [] => false
+  | x :: xs, y :: ys => x = y && isPrefix xs ys
+
+/-- `alt` occurs in `a` (`strings.Contains(a, alt)`). -/
+def isInfix (alt : Str) : Str → Bool
+  | [] => alt.isEmpty
+  | y :: ys => isPrefix alt (y :: ys) || isInfix alt ys
+
+/-- `regexp.MustCompile(b).MatchString(a)` for a literal alternation `b`. -/
+def altMatch (b a : Str) : Bool := (splitOnBar b).any fun alt => isInfix alt a
+where
+  splitOnBar : Str → List Str
+    | [] => [[]]
+    | c :: cs =>
+      match splitOnBar cs with
+      | [] => [[c]]
+      | p :: ps => if c = '|' then [] :: p :: ps else (c :: p) :: ps
+
+/-- The regexp verdict the matchers see: computed for literal alternations,
+    taken from the harness (the real `regexp`) for every other pattern. -/
+def reVerdict (b a : Str) (re : Option Bool) : Option Bool :=
+  if isLiteralAlt b then some (altMatch b a) else re
+
+def Vuln.archOK (v : Vuln) (p : Pkg) : Bool :=
+  archCmp v.archOp p.arch v.pkgArch (reVerdict v.pkgArch p.arch v.re)
 
 /-- The constant the aws and rhel matchers use for "no fix yet". -/
 def unfixedBound : Str := "65535:0".toList
@@ -292,5 +330,34 @@ def controllerKeeps (versionFilter authoritative : Bool) (dbSideHit : Bool) (vul
   if versionFilter && !dbSideHit then .ok false       -- not returned by the query at all
   else if versionFilter && authoritative then .ok true
   else vulnerable
+
+/-! ### `Controller.Match` over all the records of one package -/
+
+/-- What `Match` returns for one package ID and one advisory: an error, no
+    return, or how many times the advisory is listed for the package. -/
+inductive MatchOut
+  | err
+  | hang
+  | count (n : Nat)
+  deriving DecidableEq, Repr
+
+/-- `filter` / `filterVulns`: every interested record of the package is asked
+    in turn, each positive verdict appends the advisory; the first error aborts. -/
+def filterAll : List Out → Nat → MatchOut
+  | [], n => .count n
+  | .ok true :: r, n => filterAll r (n + 1)
+  | .ok false :: r, n => filterAll r n
+  | .err :: _, _ => .err
+  | .hang :: _, _ => .hang
+
+/-- `Match` for one package that occurs in several `IndexRecord`s (one per
+    repository / distribution it was found in; `outs` are the verdicts of
+    `Vulnerable` for these records, in order) and one advisory the store holds
+    for it.  The store answers per package ID (merged and de-duplicated). -/
+def controllerMatch (versionFilter authoritative : Bool) (dbSideHit : Bool) (outs : List Out) : MatchOut :=
+  if outs.isEmpty then .count 0                       -- no interested record: the store is not asked
+  else if versionFilter && !dbSideHit then .count 0   -- not returned by the query
+  else if versionFilter && authoritative then .count 1
+  else filterAll outs 0
 
 end ClairModel.Matchers
